@@ -319,6 +319,19 @@ func c14Admitted(w string) bool {
 	return !c14Banned[asciiUpper(w)]
 }
 
+// c14SQLish: words of SQL grammars (those that are table words are skipped at run time)
+var c14SQLish = strings.Fields(`first last next prior rows row only fetch offset percent ties page top skip take count total sum min max asc desc nulls partition over window
+	range unbounded preceding following current exclude others group filter within array rank lead lag index key primary foreign references constraint check default unique
+	cascade restrict trigger before after each statement instead begin end commit rollback savepoint transaction isolation level read write committed serializable grant revoke
+	role schema database table view column add alter rename truncate analyze explain vacuum merge matched using natural cross inner outer left right full lateral apply pivot
+	unpivot recursive cycle search depth breadth returning output inserted deleted conflict nothing duplicate replace ignore delayed temporary temp unlogged exists unknown some
+	any similar escape ilike rlike regexp glob match against boolean mode language query expansion soundex sounds nocase rtrim binary posix unicode zone time interval year
+	month day hour minute second with without local global session system user owner public catalog sequence value values cache nocache increment start stop restart identity
+	generated always stored virtual comment engine charset collation storage tablespace exec execute call procedure function returns return declare cursor open close loop
+	while repeat until leave iterate handler condition signal resignal get diagnostics prepare deallocate lock unlock share exclusive nowait wait locked tables status show
+	describe help use kill flush reset purge load data infile outfile dumpfile fields lines terminated enclosed escaped optionally starting bulk copy stdin stdout delimiter csv
+	header quote force freeze encoding uni on sel ect`)
+
 var c14Numbers = []string{"0", "1", "7", "10", "42", "007", "123", "2024", "65535", "1234567890", "99999999999999999999", "1234567890123456789012345678901", "12345678901234567890123456789012", "123456789012345678901234567890123"}
 
 // shapes: W word, N number; other bytes literal.
@@ -362,7 +375,7 @@ func c14Instantiate(shape string, r *core.Rng, words []string) string {
 func c14() *core.Check {
 	return &core.Check{
 		ID: "C14",
-		Rule: "G_benign against the LIVE keyword table: word = [A-Za-z_][A-Za-z0-9_]* from a frozen list (4000 English words in three capitalisations + identifier shapes of length 1-40), also behind 28 identifier prefixes (sp_, xp_, pg_, is_, ... one family per sequence) and mixed with marker-like words (sp_password, near-keywords) that is not a key, component or dotted prefix of a key; number = [0-9]+ incl. 31/32/33-digit runs; (1) the token-class abstraction exhaustively: all 62 sequences over {n,1} of length 1-5 must be absent from the live blacklist; (2) every sequence shape over {word,number} up to length 7 joined by single spaces, 64 (thorough 16384) random instantiations each; (3) e-mail / decimal / sentence shapes incl. apostrophes, near-keyword words (one letter glued to a keyword) and random identifiers (those not dropped by the one-time calibration), sampled; (4) 24 M (thorough 300 M) inputs built from distinct random identifiers between numbers; (5) ~30 000 keyword look-alikes (digits for look-alike letters, one letter dropped / doubled / swapped, common suffixes; those that are not table words) in six frames; (6) one identifier of 2^k+d letters (k up to 16, d = -34..34, also 65568+d) whose tail spells a keyword; multi-word keys glued into one identifier; base64 / hex spellings of injection strings; (7) benign bodies of 128 KiB-16 MiB (thorough 256 MiB); (8) long benign texts whose first and last 2^k bytes would join into a keyword; (9) the letters of every two-word table phrase split at another place, asked right after the phrase itself; sentences in which one word ends with and the next begins with the two keywords of an attack phrase; every eighth input is also asked through a zero-copy view of a recycled buffer that held an equally long attack one call earlier. Oracle: IsSQLi = (false,\"\"). " +
+		Rule: "G_benign against the LIVE keyword table: word = [A-Za-z_][A-Za-z0-9_]* from a frozen list (4000 English words in three capitalisations + identifier shapes of length 1-40), also behind 28 identifier prefixes (sp_, xp_, pg_, is_, ... one family per sequence) and mixed with marker-like words (sp_password, near-keywords) that is not a key, component or dotted prefix of a key; number = [0-9]+ incl. 31/32/33-digit runs; (1) the token-class abstraction exhaustively: all 62 sequences over {n,1} of length 1-5 must be absent from the live blacklist; (2) every sequence shape over {word,number} up to length 7 joined by single spaces, 64 (thorough 16384) random instantiations each; (3) e-mail / decimal / sentence shapes incl. apostrophes, near-keyword words (one letter glued to a keyword) and random identifiers (those not dropped by the one-time calibration), sampled; (4) 24 M (thorough 300 M) inputs built from distinct random identifiers between numbers; (5) ~30 000 keyword look-alikes (digits for look-alike letters, one letter dropped / doubled / swapped, common suffixes; those that are not table words) in six frames; (6) one identifier of 2^k+d letters (k up to 16, d = -34..34, also 65568+d) whose tail spells a keyword; multi-word keys glued into one identifier; base64 / hex spellings of injection strings; (7) benign bodies of 128 KiB-16 MiB (thorough 256 MiB); (8) long benign texts whose first and last 2^k bytes would join into a keyword; (9) the letters of every two-word table phrase split at another place, asked right after the phrase itself; sentences in which one word ends with and the next begins with the two keywords of an attack phrase; the parts of every underscore-spelt table key as separate words (\"uni on\"); ~250 words of SQL grammars that are not table words, in ordered pairs around numbers (\"page first 10 rows 25\"); every eighth input is also asked through a zero-copy view of a recycled buffer that held an equally long attack one call earlier. Oracle: IsSQLi = (false,\"\"). " +
 			"Non-trivial = every instance; distinct by string. The per-context fingerprints are recorded to show that the n/1 abstraction is what the implementation produced.",
 		Exhaustive: false,
 		Plan: func(tier string, seed uint64) []core.Unit {
@@ -387,6 +400,8 @@ func c14() *core.Check {
 			us = append(us, gen.RangeUnits("splice", uint64(len(c14SpliceCuts)*len(c14SpliceWords)), 4, "")...)
 			us = append(us, core.Unit{Gen: "embedded", Lo: 0, Hi: 1})
 			us = append(us, core.Unit{Gen: "resplit", Lo: 0, Hi: 1})
+			us = append(us, core.Unit{Gen: "unsplit", Lo: 0, Hi: 1})
+			us = append(us, gen.RangeUnits("sqlish", uint64(len(c14SQLish)), 8, "")...)
 			return us
 		},
 		Gen: func(w *core.Worker, u core.Unit, emit func(core.Case)) {
@@ -496,6 +511,50 @@ func c14() *core.Check {
 						}
 						for _, f := range []string{"5 %s %s 7", "%s %s 3", "1 %s %s", "items %s %s 3"} {
 							emit(core.Case{In: fmt.Sprintf(f, w1, w2), Kind: "resplit", S: low})
+						}
+					}
+				}
+			case "unsplit":
+				// the parts of every table key that is spelt with underscores, as
+				// separate words ("uni on", "current user"): a look-up that tries
+				// another joiner when the blank-joined phrase misses
+				for k, v := range keywords() {
+					if v == 'F' || !strings.Contains(k, "_") || strings.ContainsAny(k, " .") {
+						continue
+					}
+					parts := strings.Split(strings.ToLower(k), "_")
+					ok := len(parts) >= 2
+					for _, p := range parts {
+						if !c14Admitted(p) {
+							ok = false
+						}
+					}
+					if !ok {
+						continue
+					}
+					sp := strings.Join(parts, " ")
+					for _, f := range []string{"1 %s", "%s 2", "1 %s 3", "%s", "items %s 3 4", "5 6 %s"} {
+						emit(core.Case{In: fmt.Sprintf(f, sp), Kind: "unsplit"})
+					}
+				}
+			case "sqlish":
+				// words of SQL grammars that are not in the table (row limiting,
+				// window frames, DDL, transaction control ...), in pairs around
+				// numbers: a new folding rule for such a clause fires on plain text
+				var adm []string
+				for _, x := range c14SQLish {
+					if c14Admitted(x) {
+						adm = append(adm, x)
+					}
+				}
+				for i := u.Lo; i < u.Hi && i < uint64(len(c14SQLish)); i++ {
+					w1 := c14SQLish[i]
+					if !c14Admitted(w1) {
+						continue
+					}
+					for _, w2 := range adm {
+						for _, f := range []string{"%s 10 %s 25", "page %s 10 %s 25", "5 %s 3 %s 2", "%s %s 3", "1 %s %s", "%s 1 %s"} {
+							emit(core.Case{In: fmt.Sprintf(f, w1, w2), Kind: "sqlish"})
 						}
 					}
 				}
@@ -770,6 +829,16 @@ func refDecode(s string) (int, int) {
 	return v, i
 }
 
+// harmless elements that carry the URL attribute, harmless attributes in
+// front of it, and ordinary markup in front of the tag (nothing here is black)
+var c19Tags = []string{"a", "a", "a", "img", "set", "animate", "form", "button", "input", "area", "video", "source", "x", "td", "use", "image", "body", "q", "blockquote", "feimage"}
+
+var c19Companions = []string{"attributeName=fill", "attributename=opacity", "attributeName=x", "type=image/png", "rel=noopener", "target=_blank", "download", "sandbox=''", "dur=1s", "begin=0", "id=a", "class=\"b c\"", "title='t'",
+	"role=link", "data-x=1", "content=0", "http-equiv=refresh", "integrity=x", "crossorigin", "loading=lazy", "hidden", "xml:space=preserve", "method=post", "calcMode=discrete", "fill=freeze", "repeatCount=1", "x:y=z"}
+
+var c19DocPrefixes = []string{"", "", "<i>x</i >", "<b></b\n>text ", "<p/>", "<p>one</p><p>two</p >", "<br/><td a=b></td c='d'>", "</>", "<img alt=>", "<b c=>t", "<i x= ><b y=''>",
+	"<p><plaintext>", "<plaintext>", "<xmp>", "<textarea>", "<title>x", "<listing>", "<select><option>", "<table><tr><td>", "<math><mi>", "<p><PlainText >", "<q cite=x>", "<template>", "<details open>"}
+
 var c19DecAlpha = []string{"&", "#", "x", "X", ";", "0", "1", "9", "a", "f", "F", "g", "\x00", "\xff"}
 
 func c19() *core.Check {
@@ -785,7 +854,7 @@ func c19() *core.Check {
 	schemes := []string{"javascript:", "vbscript:", "data:", "view-source:"}
 	return &core.Check{
 		ID: "C19",
-		Rule: "(recall) for every scheme in {javascript:, vbscript:, data:, view-source:}: per-byte encodings in {literal, &#D;, &#D, &#0000D;, &#xH;, &#XH, &#x00H;} exhaustively for data: and the java prefix (8^5, 8^4) and sampled for the longer schemes, x leading junk (bytes <= 0x20, >= 0x7f, entity-encoded white space) x NUL/LF between scheme letters (also runs of 1-65537 ignorable characters / bytes at every position and as leading junk, with every length in 1020-1025, 4095-4097 and 65535-65537) x case masks; oracle: the URL predicate is true, and IsXSS(<a ATTR=quote(value)>) is true for every live URL attribute (also upper-/mixed-case, with NUL runs of 1-97 bytes inside the name, and preceded by the same attribute with a harmless value) x 4 quotings; unquoted values keep their leading white-space / NUL junk (the tokenizer skips it). " +
+		Rule: "(recall) for every scheme in {javascript:, vbscript:, data:, view-source:}: per-byte encodings in {literal, &#D;, &#D, &#0000D;, &#xH;, &#XH, &#x00H;} exhaustively for data: and the java prefix (8^5, 8^4) and sampled for the longer schemes, x leading junk (bytes <= 0x20, >= 0x7f, entity-encoded white space) x NUL/LF between scheme letters (also runs of 1-65537 ignorable characters / bytes at every position and as leading junk, with every length in 1020-1025, 4095-4097 and 65535-65537) x case masks; oracle: the URL predicate is true, and IsXSS(<a ATTR=quote(value)>) is true for every live URL attribute (also upper-/mixed-case, with NUL runs of 1-97 bytes inside the name, and preceded by the same attribute with a harmless value; on 17 harmless element names, behind one or two of 27 harmless companion attributes such as attributeName=fill, and behind 22 ordinary markup prefixes incl. <plaintext>, <xmp>, <textarea>, <title>) x 4 quotings; unquoted values keep their leading white-space / NUL junk (the tokenizer skips it). " +
 			"(decoder) every string over {& # x X ; 0 1 9 a f F g NUL 0xff} up to length 6 (thorough 7) plus boundary values around 0x1000FF in decimal and hex with 0-8 leading zeros and every tail, values that are small again modulo 2^31 ... 2^128 (wrap-around), and all 256 byte values in every position of a reference: (value, consumed) must equal the decoder specification, 1 <= consumed <= |s|. Non-trivial = decoder inputs starting with '&#' and all recall cases; distinct by input.",
 		Plan: func(tier string, seed uint64) []core.Unit {
 			L := 6
@@ -1002,15 +1071,27 @@ func c19() *core.Check {
 			case 4:
 				a = applyMask(a, uint64(c.A)*0x9e3779b97f4a7c15)
 			}
-			doc := "<a " + a + "=" + q + val + q + ">"
+			// the element is any harmless one, and other harmless attributes may
+			// stand before the URL attribute (each attribute is judged on its own,
+			// whatever was declared before it on the same tag)
+			hx := core.Hash64(s) ^ uint64(c.A)*0x9e3779b97f4a7c15
+			tag := c19Tags[hx%uint64(len(c19Tags))]
+			comp := ""
+			if hx>>8%3 == 0 {
+				comp = c19Companions[hx>>16%uint64(len(c19Companions))] + " "
+				if hx>>12%4 == 0 {
+					comp += c19Companions[hx>>24%uint64(len(c19Companions))] + " "
+				}
+			}
+			doc := "<" + tag + " " + comp + a + "=" + q + val + q + ">"
 			if int(c.A)%3 == 0 {
 				// the same attribute once before with a harmless value (duplicate
 				// attributes: each occurrence is judged on its own)
-				doc = "<a " + strings.ToLower(strings.ReplaceAll(a, "\x00", "")) + "=/home " + a + "=" + q + val + q + ">"
+				doc = "<" + tag + " " + strings.ToLower(strings.ReplaceAll(a, "\x00", "")) + "=/home " + comp + a + "=" + q + val + q + ">"
 			}
 			// ordinary markup in front of the tag (the verdict must come from the
 			// URL value: nothing in these prefixes is black)
-			doc = []string{"", "", "<i>x</i >", "<b></b\n>text ", "<p/>", "<p>one</p><p>two</p >", "<br/><td a=b></td c='d'>", "</>", "<img alt=>", "<b c=>t", "<i x= ><b y=''>"}[int(c.A/11)%11] + doc
+			doc = c19DocPrefixes[int(c.A/11)%len(c19DocPrefixes)] + doc
 			if !li.IsXSS(doc) {
 				w.Violate("scheme-not-recognised", fmt.Sprintf("IsXSS(%q) = false although the value decodes to a script-capable scheme\n%s", trunc(doc, 200), explainXSS(doc)))
 				return
